@@ -203,7 +203,8 @@ Inductive event :=
 | Forged (sid : N)             (* a transport message with the device index of session sid and a fresh counter
                                   that does NOT authenticate (corrupted tag / garbage payload / wrong key) *)
 | Replay (sid : N)             (* the remote party's last message under session sid, sent again unchanged *)
-| Restart.                     (* interface Down then Up: Peer.Stop (ZeroAndFlushAll) then Peer.Start *)
+| Restart                      (* interface Down then Up: Peer.Stop (ZeroAndFlushAll) then Peer.Start *)
+| Keepalive.                   (* SendKeepalive: a keepalive-only transmission (no data) *)
 
 Record out := mkOut {
   o_acc : bool;        (* handshake completed / transport message accepted *)
@@ -290,9 +291,21 @@ Definition do_restart (s : state) : state * out :=
   (mkState (now s) None None None t None (Some (now s - (RekeyTimeout + 1000000000))) false 0
            (nidx s) (inits s) (nsess s) (sessions s), out0).
 
-Definition do_send (s : state) : state * out :=
-  let '(s1, sent, i) := send_staged (set_staged s (staged s + 1)) in
+(* SendStagedPackets with m packets in the staged queue, then what RoutineSequentialSender does. *)
+Definition do_transmit (s : state) (m : N) : state * out :=
+  let '(s1, sent, i) := send_staged (set_staged s m) in
   (s1, mkOut false sent i false false).
+
+(* a data packet from the TUN: StagePackets; SendStagedPackets *)
+Definition do_send (s : state) : state * out := do_transmit s (staged s + 1).
+
+(* send.go SendKeepalive (keepalive timers, persistent keepalive, UAPI switch-on of the persistent
+   keepalive): an empty packet is staged only if nothing is staged; SendStagedPackets.  The sequential
+   sender calls keepKeyFreshSending after every batch, data or keepalive.  (The UAPI path calls
+   SendStagedPackets once more afterwards: at the same instant that is a no-op -- nothing staged, or
+   the handshake request is inside the 5 s spacing.) *)
+Definition do_keepalive (s : state) : state * out :=
+  do_transmit s (if staged s =? 0 then 1 else staged s).
 
 Definition step (s : state) (e : event) : state * out :=
   let s := set_now s (now s + 1) in
@@ -306,6 +319,7 @@ Definition step (s : state) (e : event) : state * out :=
   | Forged sid => do_unauthentic s sid
   | Replay sid => do_unauthentic s sid
   | Restart => do_restart s
+  | Keepalive => do_keepalive s
   end.
 
 (* The property's composite event "handshake completed as initiator". *)
